@@ -409,6 +409,7 @@ def _op_solve(ctx, op, state):
 
     def call():
         pot = solve_poisson_bvp(g, rho, state["tf"], ode_params=params, **kw)
+        held["pot"] = pot
         first = pot(pts)
         held["keep"] = np.array(first, dtype=float)
         held["second"] = pot(state["pts_b"])  # same number of points, other points
@@ -416,6 +417,24 @@ def _op_solve(ctx, op, state):
         return first
 
     oc = _outcome(call)
+    if oc[0] == "ok" and (bseed + ctx.step) % 6 == 0:
+        # how many points the caller asks for in ONE call is the caller's business: none, one, thousands, a whole cube.
+        # The value at a point must not depend on the company it is evaluated in.
+        nbig = (0, 1, 3000, 140000 if "mol" not in ctx.spec else 9000)[(bseed // 6) % 4]
+        cc = np.atleast_2d(np.asarray(c, dtype=float))[0]
+        big = cc + np.random.RandomState(bseed + 17).uniform(-3.0, 3.0, size=(nbig, 3))
+        ob = _outcome(lambda: np.asarray(held["pot"](big), dtype=float))
+        if ob[0] == "raise":
+            ctx.violate("batch-size", "solve", f"{which}:raise", f"the returned potential raised {ob[1]!r} when evaluated at {nbig} points in one call")
+        elif ob[1].shape != (nbig,):
+            ctx.violate("batch-size", "solve", f"{which}:shape", f"the returned potential gave shape {ob[1].shape} for {nbig} points")
+        elif nbig:
+            sel = np.unique(np.concatenate([np.random.RandomState(bseed).randint(nbig, size=9), [0, nbig - 1, nbig // 2]]))
+            sub = np.asarray(held["pot"](big[sel].copy()), dtype=float)
+            db = float(np.max(np.abs(ob[1][sel] - sub))) / max(1.0, float(np.max(np.abs(sub))))
+            if not np.isfinite(db) or db > 1e-9:
+                ctx.violate("batch-size", "solve", which, f"the potential at the same points differs by {db:.3g} between a call with {nbig} points and a call with {len(sel)} of them")
+        ctx.probes.hit("potential-evaluated-at-%d-points" % nbig)
     if oc[0] == "ok" and not np.array_equal(np.asarray(held["first_after"], dtype=float), held["keep"], equal_nan=True):
         ctx.violate("result-overwritten", "solve", which, "the array returned by the potential changed when the potential was evaluated again at other points")
     if oc[0] == "ok":
